@@ -320,3 +320,12 @@ if __name__ == '__main__':
         json.dump(m, f, indent=1)
         f.write('\n')
     print('MANIFEST.json: %d checks, %d not_applicable' % (len(m['checks']), len(m['not_applicable'])))
+    # digests of the tree the instance floors were confirmed on (see Model.pinned)
+    import hashlib
+    from .model import Model
+    mdl = Model()
+    pins = {mo.relpath: hashlib.sha256(mdl.read(mo.relpath).encode('utf-8')).hexdigest() for mo in mdl.modules.values()}
+    with open(os.path.join(VERIF, 'sa', 'pinned.json'), 'w') as f:
+        json.dump(pins, f, indent=1, sort_keys=True)
+        f.write('\n')
+    print('sa/pinned.json: %d modules' % len(pins))
